@@ -205,4 +205,52 @@ theorem gridAdj_iff (shape : List Nat) (pbc : List Bool) (i j : Nat) :
   · rintro ⟨hi, hj, d, hd, h⟩
     exact ⟨⟨hi, hj⟩, d, hd, (axisAdj_iff shape pbc d i j hi hj hd).mpr h⟩
 
+/-! ### the pairing without the self-pair test (odd-face-centred lattice) -/
+
+/-- no periodic axis has extent 1 (the odd-face-centred constructor guarantees it: periodic axes are even) -/
+def NoTrivialWrap (shape : List Nat) (pbc : List Bool) : Prop :=
+  ∀ d, d < shape.length → pbc.getD d false = true → shape.getD d 1 ≠ 1
+
+theorem rollSrc_ne {n k : Nat} (plus : Bool) (hk : k < n) (hn : n ≠ 1) : rollSrc n plus k ≠ k := by
+  cases plus
+  · rw [rollSrc_minus hk]; split <;> omega
+  · rw [rollSrc_plus hk]; split <;> omega
+
+/-- without a periodic axis of extent 1 the wrap never pairs a site with itself, so the `i != j` test is redundant -/
+theorem rollPairRaw_eq (n B : Nat) (per plus : Bool) (i j : Nat) (hn : per = true → n ≠ 1) (hn0 : 0 < n) (hB : 0 < B) :
+    rollPairRaw n B per plus i j = rollPair n B per plus i j := by
+  unfold rollPairRaw rollPair
+  cases per
+  · rfl
+  · simp only [if_true, Bool.true_and]
+    have hk : (i / B) % n < n := Nat.mod_lt _ hn0
+    have hne := rollSrc_ne plus hk (hn rfl)
+    by_cases he : j + (i / B) % n * B = i + rollSrc n plus ((i / B) % n) * B
+    · have hij : i ≠ j := by
+        intro e
+        subst e
+        apply hne
+        have : (i / B) % n * B = rollSrc n plus ((i / B) % n) * B := by omega
+        exact (Nat.eq_of_mul_eq_mul_right hB this).symm
+      simp [he, hij]
+    · simp [he]
+
+theorem gridAdjRaw_eq (shape : List Nat) (pbc : List Bool) (i j : Nat) (h : NoTrivialWrap shape pbc) :
+    gridAdjRaw shape pbc i j = gridAdj shape pbc i j := by
+  unfold gridAdjRaw gridAdj axisAdj
+  by_cases hi : i < sprod shape
+  · congr 1
+    apply Bool.eq_iff_iff.mpr
+    simp only [List.any_eq_true, List.mem_range]
+    refine exists_congr fun d => and_congr_right fun hd => ?_
+    have hs := sprod_split shape d hd
+    have hpos : 0 < shape.getD d 1 * stride shape d := by
+      rcases Nat.eq_zero_or_pos (shape.getD d 1 * stride shape d) with h0 | h0
+      · rw [h0] at hs; simp at hs; omega
+      · exact h0
+    have hn0 : 0 < shape.getD d 1 := Nat.pos_of_mul_pos_right hpos
+    have hB : 0 < sprod (shape.drop (d + 1)) := Nat.pos_of_mul_pos_left hpos
+    simp only [rollPairRaw_eq _ _ _ _ i j (h d hd) hn0 hB]
+  · simp [hi]
+
 end Qib.Lattice
